@@ -314,6 +314,8 @@ def tree_write_args(prog: Program) -> RuleResult:
                         mod,
                         call,
                     )
+    if res.findings:
+        return res  # a call site that is wrong is reported even when the other call sites were folded into it
     if n_w < 4:
         raise AnalysisError(f"TREE-WRITE-ARGS: only {n_w} Tree.write call sites found in {MODEL}")
     res.floor(6)
@@ -453,6 +455,14 @@ def mapping_keying(prog: Program) -> RuleResult:
                     igen = idx.generators[0]
                     inode = dotted(igen.target)
                     over_tree = tree_param in {n.id for n in ast.walk(index_iter[expr.value.id]) if isinstance(n, ast.Name)}
+                    if len(idx.generators) == 2 and isinstance(idx.generators[0].iter, (ast.Tuple, ast.List)) and len(idx.generators[0].iter.elts) >= 2:
+                        # one index for several trees: `for tree in (from_tree, to_tree) for node in tree.traverse()`
+                        shared = [dotted(e) for e in idx.generators[0].iter.elts]
+                        problems.append(
+                            f"`{short(expr)}` resolves `{var}` through ONE name index built over {shared}: a name used in both "
+                            "trees (an ancestral gene named after its species) resolves to a node of the wrong tree"
+                        )
+                        return True
                     if not (inode and over_tree and dotted(idx.value) == inode and len(idx.generators) == 1):
                         raise AnalysisError(f"{construct}: name index `{expr.value.id}` has a shape that is not recognised")
                     key_norm = _name_normaliser(idx.key, ast.Attribute(value=ast.Name(id=inode, ctx=ast.Load()), attr="name", ctx=ast.Load()))
@@ -663,6 +673,15 @@ def cost_passthrough(prog: Program) -> RuleResult:
 
 def _judge(res: RuleResult, construct: str, stored: ast.AST, is_raw, filters, mod: Module) -> None:
     verdict = _truthiness_use(stored, is_raw)
+    if verdict is None and isinstance(stored, ast.Call) and isinstance(stored.func, ast.Name) and len(stored.args) == 1 and is_raw(stored.args[0]):
+        # the value goes through a helper of the module: a conversion to int / a rounding inside it is not a
+        # pass-through (int(inf) raises OverflowError, 1.5 becomes 1)
+        helper = next((st for st in mod.tree.body if isinstance(st, ast.FunctionDef) and st.name == stored.func.id), None)
+        if helper is not None:
+            conv = [c for c in ast.walk(helper) if isinstance(c, ast.Call) and dotted(c.func) in ("int", "round", "math.floor", "math.ceil", "math.trunc", "floor", "ceil", "trunc")]
+            if conv:
+                res.fail(construct, f"the cost is passed through `{helper.name}`, which applies `{short(conv[0])}` to it: an infinite cost (a forbidden event) cannot be converted and a fractional one changes", mod, stored)
+                return
     if verdict is None:
         raise AnalysisError(f"{construct}: stored value `{short(stored)}` has a shape that is not recognised")
     problems = []
